@@ -343,6 +343,12 @@ def b_check(case):
                     # dt*|N(u)| > 10 |u|: the polynomial nonlinearity itself can overflow single precision
                     res.tag("nonlinear_blow_up_regime:output_finiteness_not_asserted")
                 outs[sess] = out
+            if x64:
+                # a single-precision input array (a float32 data set, a state created before x64 was enabled) must not
+                # drag the result down: "results carry the session's default floating dtype"
+                ok, o32in = res.lib("call_float32_input", S, jnp.asarray(u, dtype=jnp.float32), key=key + ":" + sess + ":float32_input")
+                if ok:
+                    res.true("output_dtype_is_session_default:float64_session_float32_input", o32in.dtype == jnp.float64, key=key + ":" + sess + ":float32_input:dtype", msg=str(o32in.dtype))
             ok, o0 = res.lib("call_zero", S, jnp.zeros(u.shape, dtype=fdt), key=key + ":" + sess)
             if ok:
                 o0 = np.asarray(o0)
